@@ -56,6 +56,7 @@ type PropFunc struct {
 	Mode    string   `json:"mode"`          // contract | sweep | frame
 	Classes []string `json:"classes"`       // obligation classes that count for this property (empty: all)
 	NoInv   bool     `json:"no_invariants"` // do not assume the declared type invariants (C10: well-formedness is the question)
+	KeepInv bool     `json:"keep_invariants"` // assume all declared type invariants for this entry even if the property skips some
 }
 
 type Finding struct {
@@ -249,7 +250,11 @@ func cmdCheck(args []string) {
 				continue
 			}
 			seenFn[fn] = en.Mode
-			u := e.verify(fn, VerifyOpts{SweepOnly: en.Mode == "sweep", Frame: en.Mode == "frame", NoInv: en.NoInv || spec.NoInv, SkipInv: spec.SkipInv})
+			skip := spec.SkipInv
+			if en.KeepInv {
+				skip = nil
+			}
+			u := e.verify(fn, VerifyOpts{SweepOnly: en.Mode == "sweep", Frame: en.Mode == "frame", NoInv: en.NoInv || spec.NoInv, SkipInv: skip})
 			r := &unitReport{u: u, entry: en}
 			var keep []*Obl
 			for _, o := range u.obls {
